@@ -16,6 +16,7 @@ from ..core import Family, Result, viol, HarnessError
 from ..bfs import BFSFamily
 from ..canon import canon
 from .. import chooser
+from .. import libstate
 
 import mitxgraders
 from mitxgraders import (StringGrader, FormulaGrader, NumericalGrader, MatrixGrader, SingleListGrader, ListGrader,
@@ -155,6 +156,15 @@ def do_call(g, expect, inp):
 
 # ------------------------------------------------------------------ process-wide snapshot
 
+def _negpow_works():
+    """the matrix negative-power switch, observed behaviourally"""
+    try:
+        MathArray([[2.0, 0.0], [0.0, 4.0]]) ** -1
+        return True
+    except Exception:
+        return False
+
+
 def global_snapshot():
     classes = [ObjectWithSchema]
     seen = set()
@@ -183,7 +193,9 @@ def global_snapshot():
         'DEFAULT_SUFFIXES': canon(MF.DEFAULT_SUFFIXES),
         'METRIC_SUFFIXES': canon(MF.METRIC_SUFFIXES),
         'MathMixin': (canon(MathMixin.default_variables), canon(sorted(MathMixin.default_functions)), canon(MathMixin.default_suffixes)),
-        'negative_powers': MathArray._negative_powers,
+        'class_scalars': canon(sorted((k, repr(v)) for k, v in libstate.class_scalars().items()
+                                     if isinstance(v, (bool, str, type(None))))),      # switch-like class attributes
+        'negative_powers_work': _negpow_works(),
         'np.geterr': canon(np.geterr()),
         'np.geterrcall': getattr(np.geterrcall(), '__qualname__', repr(np.geterrcall())),
         'default_values': tuple(sorted(dv)),
@@ -198,7 +210,7 @@ _GRADER_CLASSES = [ObjectWithSchema, AbstractGrader, ItemGrader, StringGrader, F
 def save_globals():
     """the real objects behind global_snapshot(), so that a detected leak can be undone before the next history"""
     saved = {
-        'negative_powers': MathArray._negative_powers,
+        'class_scalars': libstate.class_scalars(),
         'geterr': dict(np.geterr()),
         'errcall': np.geterrcall(),
         'dicts': [(d, copy.copy(d)) for d in (MF.DEFAULT_VARIABLES, MF.DEFAULT_FUNCTIONS, MF.DEFAULT_SUFFIXES, MF.METRIC_SUFFIXES,
@@ -211,7 +223,7 @@ def save_globals():
 
 
 def restore_globals(saved):
-    MathArray._negative_powers = saved['negative_powers']
+    libstate.restore_class_scalars(saved['class_scalars'])
     np.seterr(**saved['geterr'])
     np.seterrcall(saved['errcall'])
     for d, cp in saved['dicts']:
